@@ -700,3 +700,80 @@ def fault_position(events, f):
     if n_ii == 0 and n_m <= 1:
         return "before-chain"
     return "in-chain:" + actual
+
+
+# ----------------------------------------------------------------------------------------------
+# C06 inside explainer worlds: every imputer call an explainer makes obeys the imputer contract
+# ----------------------------------------------------------------------------------------------
+
+class C06InExplainerOracle(BaseOracle):
+    prop = "C06"
+
+    def after_op(self, ctx):
+        w = self.world
+        cur = None
+        for ev in ctx.events:
+            if ev[0] == "II":
+                icfg = w.cfg["imputers"][ev[1]]
+                cur = {"icfg": icfg, "subset": ev[2], "x": ev[4], "n": ev[5], "rows": ev[6] if len(ev) > 6 else None,
+                       "inputs": []}
+                if icfg["kind"] == "stub":
+                    cur = None
+            elif ev[0] == "M" and cur is not None:
+                cur["inputs"].append((ev[1], ev[2]))
+            elif ev[0] == "IO" and cur is not None:
+                v = self.judge(cur, ev[2], ev[3] if len(ev) > 3 else None)
+                if v:
+                    return v
+                cur = None
+        return None
+
+    def judge(self, c, preds, rows_after):
+        kind = c["icfg"]["kind"]
+        S, x, n = c["subset"], c["x"], c["n"]
+        name = kind if kind == "default" else "marginal-" + c["icfg"].get("strategy", "joint")
+        if S is None:
+            return None
+        if len(preds) != n:
+            return self.v("prediction-count", "impute returned %d predictions, n_samples=%d" % (len(preds), n), cls=name)
+        if not c["inputs"]:
+            return self.v("no-model-evaluation", "impute made no model evaluation", cls=name)
+        outs = [o for _, o in c["inputs"]]
+        for p in preds:
+            if not any(p == o for o in outs):
+                return self.v("prediction-not-model-output", "prediction %r is not an output of an evaluated input" % (p,),
+                              cls=name)
+        if kind != "default" and len(c["inputs"]) != n:
+            return self.v("evaluation-count", "%d model evaluations for n_samples=%d" % (len(c["inputs"]), n), cls=name)
+        rows = c["rows"][0] if c["rows"] else []
+        for inp, out in c["inputs"]:
+            if set(inp.keys()) != set(x.keys()):
+                return self.v("input-keys", "model input keys %r, instance keys %r" % (list(inp), list(x)), cls=name)
+            for f in x:
+                if not any(f == s_ for s_ in S) and inp[f] != x[f]:
+                    return self.v("outside-subset-changed", "feature %r outside the subset %r: instance %r, model input %r"
+                                  % (f, S, x[f], inp[f]), cls=name)
+            if kind == "default":
+                for j, f in enumerate(w_names(self.world)):
+                    if any(f == s_ for s_ in S) and inp[f] != -(j + 1):
+                        return self.v("not-the-default", "feature %r: model input %r, configured default %r"
+                                      % (f, inp[f], -(j + 1)), cls=name)
+            elif c["icfg"].get("strategy", "joint") == "joint":
+                if S and not any(all(inp[f] == r[f] for f in S) for r in rows):
+                    return self.v("joint-not-one-row", "imputed values %r are not those of one stored row (rows %r)"
+                                  % ({f: inp[f] for f in S}, rows), cls=name)
+            else:
+                for f in S:
+                    if not any(inp[f] == r[f] for r in rows):
+                        return self.v("value-not-stored", "feature %r imputed with %r which no stored row has" % (f, inp[f]),
+                                      cls=name)
+        if not S:
+            self.probe("empty_subset_in_explainer")
+        if c["rows"] is not None and rows_after is not None and c["rows"] != rows_after:
+            return self.v("storage-modified", "storage content changed during impute", cls=name)
+        self.probe("explainer_impute_checked")
+        return None
+
+
+def w_names(world):
+    return world.names
